@@ -108,6 +108,14 @@ theorem umod_eq (a b : Nat) (h : 0 < b) : umod a b = some (a % b) := by
 theorem udiv_eq (a b : Nat) (h : 0 < b) : udiv a b = some (a / b) := by
   simp [udiv]; omega
 
+/-- `slice_eq` for a deque that was just written (side conditions stay within `omega`'s reach) -/
+theorem slice_set_eq {F} (d : Array F) (i : Nat) (v : F) (a b : Nat) (h1 : a ≤ b) (h2 : b ≤ d.size) :
+    slice (d.setIfInBounds i v) a b = some (((d.setIfInBounds i v).toList.drop a).take (b - a)) :=
+  slice_eq _ a b h1 (by simpa using h2)
+
+theorem slice_none {F} (d : Array F) (a b : Nat) (h : b < a) : slice d a b = none := by
+  simp [slice]; omega
+
 /-- Symbolic execution of a generated `next`/`reset` body that is *independent of the syntactic
     shape of its tests*: the checked operations are rewritten to their values (side conditions by
     `omega`), every `if` of the goal is split, and the loop repeats until nothing moves.  The
@@ -120,5 +128,74 @@ macro "rs_exec" : tactic => `(tactic|
     | (simp (disch := omega) only [index_eq, setIndex_eq, uadd_eq, usub_eq, umod_eq, udiv_eq,
         Option.bind_eq_bind, Option.bind_some, Option.pure_def, decide_eq_true_eq,
         decide_eq_false_iff_not, Bool.not_eq_true', Bool.and_eq_true, Bool.or_eq_true] at *)))
+
+theorem ite_some_some {α : Type} (c : Prop) [Decidable c] (a b : α) :
+    (if c then some a else some b) = some (if c then a else b) := by
+  split <;> rfl
+
+theorem ite_prod_left {α β : Type} (c : Prop) [Decidable c] (a : α) (b b' : β) :
+    (if c then (a, b) else (a, b')) = (a, if c then b else b') := by
+  split <;> rfl
+
+/-- `f (if c then a else b) = if c then f a else f b`; instantiate `f` with the field projections
+    of a state structure to get rewrite rules for `rs_exec_prune [..]` -/
+theorem ite_proj {α β : Type} (f : α → β) (c : Prop) [Decidable c] (a b : α) :
+    f (if c then a else b) = if c then f a else f b := by
+  split <;> rfl
+
+/-- decide a Nat test of generated code semantically (with `disch := omega`), whatever its spelling -/
+theorem ite_decide_pos {α} (p : Prop) [Decidable p] (a b : α) (h : p) :
+    (if decide p = true then a else b) = a := by simp [h]
+
+theorem ite_decide_neg {α} (p : Prop) [Decidable p] (a b : α) (h : ¬ p) :
+    (if decide p = true then a else b) = b := by simp [h]
+
+/-- Variant of `rs_exec` for bodies with many tests, in particular tests on scalars that occur
+    both in the generated code (one `if` per statement) and in a normal form (one `if` per field).
+    Like `rs_exec` it never looks at how a test is spelled.
+    * The goal is normalised BEFORE it is split: besides the rules of `rs_exec` (and `Rs.slice`),
+      an `if` between two `some`s / two pairs with the same first component / two equal values
+      is pushed inwards, so that a test that does not influence control flow need not be split;
+      extra rules (typically `ite_proj` instances for the fields of the state) can be given in
+      brackets.
+    * A branch whose hypotheses are contradictory is closed (`omega`, `contradiction`) as soon as
+      it appears instead of being split further, which keeps the number of leaves linear in the
+      number of tests when the same test occurs several times (spelled differently or not). -/
+syntax "rs_exec_prune" (" [" Lean.Parser.Tactic.simpLemma,* "]")? : tactic
+macro_rules
+  | `(tactic| rs_exec_prune) => `(tactic| rs_exec_prune [])
+  | `(tactic| rs_exec_prune [$ts,*]) => `(tactic|
+      repeat' (first
+        | omega
+        | contradiction
+        | (simp (maxSteps := 1000000) (disch := omega) only [index_eq, setIndex_eq, uadd_eq, usub_eq,
+            umod_eq, udiv_eq, slice_eq, slice_set_eq, ite_some_some, ite_prod_left, ite_self,
+            Option.bind_eq_bind, Option.bind_some, Option.pure_def, decide_eq_true_eq,
+            decide_eq_false_iff_not, Bool.not_eq_true', Bool.and_eq_true, Bool.or_eq_true, $ts,*])
+        | split))
+
+/-- Staged evaluation of a generated body WITHOUT case splits, for bodies that are too big for
+    `rs_exec_prune` (many tests on scalars, record-valued `if`s).  Three groups of rewrite rules are
+    applied in separate cheap passes until nothing moves:
+    1. notation (`bind`, `pure`);
+    2. checked operations (side conditions by `omega`), and every test `if decide p` of the generated
+       code that `omega` can decide from the hypotheses, WHATEVER ITS SPELLING (`ite_decide_pos/neg`;
+       tests on scalars are not of the form `decide p`, so `omega` is only called on Nat tests);
+    3. `bind` of a value, and `if`s pushed inwards (between two `some`s / two pairs with the same
+       first component / two equal values, plus the rules given in brackets, typically `ite_proj`
+       instances for the fields of the state).
+    The usage pattern is: `rs_exec_lazy`, then `by_cases` on MY OWN canonical spelling of the next
+    undecided Nat test, `rs_exec_lazy` again, …, and finally `rs_exec_prune` on the (now small)
+    goals to compare with the normal form.  A dead branch is dropped as soon as its test is closed,
+    before it is evaluated. -/
+syntax "rs_exec_lazy" (" [" Lean.Parser.Tactic.simpLemma,* "]")? : tactic
+macro_rules
+  | `(tactic| rs_exec_lazy) => `(tactic| rs_exec_lazy [])
+  | `(tactic| rs_exec_lazy [$ts,*]) => `(tactic|
+      repeat' (first
+        | (simp only [Option.bind_eq_bind, Option.pure_def])
+        | (simp (disch := omega) only [index_eq, setIndex_eq, uadd_eq, usub_eq, umod_eq, udiv_eq,
+            slice_eq, slice_set_eq, ite_decide_pos, ite_decide_neg])
+        | (simp only [Option.bind_some, ite_some_some, ite_prod_left, ite_self, $ts,*])))
 
 end TaRs.Rs
